@@ -20,7 +20,7 @@ func init() {
 		ID: "C20", Level: "model_checking",
 		Rule:   "ELX input enumeration: request header lists built from a base request by every subset of <= 2 (quick) / <= 3 (thorough) items of a valid/invalid vocabulary (each pseudo-header dropped / duplicated / after a regular field, :status, unknown pseudo-header, upper-case name, each connection-specific field, te trailers/gzip, content-length equal/short/long/non-numeric/overflowing/two values, empty :path, repeated fields, cookies) x body {0,5 bytes} x trailers {none, valid, with pseudo-header}, each placed first / middle / last between two valid neighbours on one connection; client half: response lists from the mirrored vocabulary against the real client. Oracle: RFC 7540 8.1.2 predicate well-formed <=> handler runs (response delivered); otherwise never runs and only that stream sees RST_STREAM(PROTOCOL_ERROR) or a 4xx. Non-trivial: >= 1 vocabulary item applied; distinct by (list, body, trailers, position).",
 		Assume: []string{"ref/msg.go is RFC 7540 8.1.2 restricted to the vocabulary the property fixes (no CONNECT, token/field-value grammar not checked)", "blocks are encoded without dynamic-table references so that HPACK accounting of rejected blocks (C09) does not interfere"},
-		Run:    runC20, Replay: replayC20, QuickS: 120, ThoroughS: 600,
+		Run:    runC20, Replay: replayC20, Policies: 1, QuickS: 120, ThoroughS: 600,
 	})
 }
 
